@@ -7,6 +7,7 @@ import (
 	"crypto/sha256"
 	"encoding/binary"
 	"encoding/hex"
+	"encoding/json"
 	"fmt"
 	"math"
 	"math/rand"
@@ -561,6 +562,41 @@ func ids(c *mon.Ctx) {
 			for j := 0; j < nTx; j++ {
 				tx := genTx(r, r.Intn(3) != 0)
 				tx.Init()
+				// objects that already carry an ID when Init runs (what the JSON endpoints and every
+				// caller that copies and edits a transaction produce): the ID must follow the content
+				switch r.Intn(3) {
+				case 0:
+					if js, err := json.Marshal(tx); err == nil {
+						var m map[string]any
+						if json.Unmarshal(js, &m) == nil {
+							foreign := sha256.Sum256([]byte(fmt.Sprint("foreign", i, j, r.Int63())))
+							m["id"] = hex.EncodeToString(foreign[:])
+							js2, _ := json.Marshal(m)
+							t2 := &blockchain.Transaction{}
+							if json.Unmarshal(js2, t2) == nil {
+								t2.Init()
+								if bytes.Equal(t2.Encode(), tx.Encode()) {
+									k.Count("tx_init_after_json_with_foreign_id", 1)
+									tx = t2
+								} else {
+									k.Count("tx_json_not_lossless_skipped", 1)
+								}
+							}
+						}
+					}
+				case 1:
+					cp := tx.Copy()
+					cp.Nonce ^= 1 << uint(r.Intn(40))
+					if r.Intn(2) == 0 {
+						cp.Params = append(append([]byte{}, cp.Params...), byte(r.Intn(256)))
+					}
+					cp.Init()
+					k.Count("tx_init_after_copy_and_edit", 1)
+					tx = cp
+				}
+				if h := sha256.Sum256(tx.Encode()); !bytes.Equal(h[:], tx.ID) {
+					k.Violation("tx-id:not-hash-of-bytes:init-on-object-carrying-an-id", "Transaction.Init left an ID that is not the SHA-256 of the encoding", map[string]any{"tx": hx(tx.Encode()), "id": hx(tx.ID)})
+				}
 				if seen[string(tx.ID)] {
 					continue
 				}
@@ -574,6 +610,12 @@ func ids(c *mon.Ctx) {
 					m = fmt.Sprintf("m%d", j)
 				}
 				assets = append(assets, &blockchain.BlockAsset{Module: m, Data: genBytes(r)})
+			}
+			if r.Intn(3) == 0 {
+				// a header object that already carries the ID of other content
+				hdr.Init()
+				hdr.Timestamp ^= 1 << uint(r.Intn(31))
+				k.Count("header_init_after_edit", 1)
 			}
 			blk := &blockchain.Block{Header: hdr, Transactions: txs, Assets: assets}
 			blk.Init()
